@@ -58,8 +58,16 @@ dofailed(struct connect_cookie * C)
 	/* This address didn't work. */
 	C->sas++;
 
-	/* Try other addresses until we run out of options. */
-	return (tryconnect(C));
+	/*
+	 * Try other addresses until we run out of options.  We're running
+	 * from callback context and the upstream code holds our cookie, so
+	 * a fatal error is reported via the upstream callback.
+	 */
+	if (tryconnect(C))
+		return (docallback(C));
+
+	/* Success! */
+	return (0);
 }
 
 /* Callback when connect(2) succeeds or fails. */
@@ -92,10 +100,10 @@ callback_connect(void * cookie)
 err1:
 	if (close(C->s))
 		warnp("close");
-	free(C);
+	C->s = -1;
 
-	/* Fatal error! */
-	return (-1);
+	/* Fatal error: Report it via the upstream callback. */
+	return (docallback(C));
 }
 
 /* Callback when a timer expires. */
@@ -114,7 +122,7 @@ callback_timeo(void * cookie)
 	return (dofailed(C));
 }
 
-/* Try to launch a connection.  Free the cookie on fatal errors. */
+/* Try to launch a connection.  On fatal errors, no socket is left open. */
 static int
 tryconnect(struct connect_cookie * C)
 {
@@ -162,7 +170,7 @@ err2:
 err1:
 	if ((C->s != -1) && close(C->s))
 		warnp("close");
-	free(C);
+	C->s = -1;
 
 	/* Fatal error. */
 	return (-1);
@@ -209,11 +217,13 @@ network_connect_internal(struct sock_addr * const * sas,
 
 	/* Try to connect to the first address. */
 	if (tryconnect(C))
-		goto err0;
+		goto err1;
 
 	/* Success! */
 	return (C);
 
+err1:
+	free(C);
 err0:
 	/* Failure! */
 	return (NULL);
